@@ -13,6 +13,8 @@ structure KindOps where
   rt : List String → String
   dec : Bytes → String
   wfToks : List String → Option (Bool × String)   -- (well-formed?, canonical tokens)
+  /-- for input bytes that are exactly the encoding of a well-formed message: its tokens -/
+  canon : Bytes → Option String
 
 def mkOps {α : Type} (c : Codec α) (minLen : Nat) : KindOps :=
   let decode := decodeTop minLen c
@@ -36,7 +38,11 @@ def mkOps {α : Type} (c : Codec α) (minLen : Nat) : KindOps :=
     wfToks := fun ts =>
       match c.ofToks ts with
       | some (a, []) => some (c.wf a, join (c.toks a))
-      | _ => none }
+      | _ => none
+    canon := fun bs =>
+      match decode bs with
+      | some a => if c.wf a && c.enc a == bs then some (join (c.toks a)) else none
+      | none => none }
 
 /-! token-level helpers for the two hand-written kinds -/
 
@@ -153,10 +159,16 @@ def spec (line : String) (implOut : String) : String :=
       | some (false, _) => "ok"
       | none => "bad-op"
     | none => "bad-op"
-  | ["dec", k, _] =>
+  | ["dec", k, h] =>
     if implOut.endsWith "re=diff" then "fail reencode-" ++ k
     else if implOut.startsWith "err unexpected" then "fail errclass-" ++ k
-    else "ok"
+    else match kind k, bytesOfHex h with
+      | some ops, some bs =>
+        -- the input is exactly the encoding of a well-formed message m: the answer must be m
+        match ops.canon bs with
+        | some t => if implOut == "ok " ++ t ++ " re=ok" then "ok" else "fail roundtrip-" ++ k
+        | none => "ok"
+      | _, _ => "bad-op"
   | ["alloc", k, _] => if implOut.startsWith "alloc big" then "fail alloc-" ++ k else "ok"
   | "frame" :: _ => if implOut == step line then "ok" else "fail frame-encode"
   | "unframe" :: _ => if implOut == step line then "ok" else "fail frame-decode"
